@@ -9,6 +9,7 @@ import (
 	"strings"
 	"unique"
 
+	corev1 "k8s.io/api/core/v1"
 	resourcev1 "k8s.io/api/resource/v1"
 	"k8s.io/apimachinery/pkg/api/resource"
 	metav1 "k8s.io/apimachinery/pkg/apis/meta/v1"
@@ -35,26 +36,55 @@ const (
 	drvShared = "shared.example.com"
 	drvTmpl   = "tmpl.example.com"
 	drvPart   = "part.example.com"
+	drvTPart  = "tpart.example.com"
 	capDim    = "mem"
 	ctrSet    = "cs"
 	ctrName   = "slots"
 )
 
 // PartDev is an exclusive in-cluster device that consumes W units of the pool's shared counter (a partition of a
-// partitionable device)
+// partitionable device); Pre = the partition is already allocated in the cluster (AllocatedDeviceState.ExclusiveDevices)
 type PartDev struct {
 	Name string `json:"name"`
 	W    int64  `json:"w"`
+	Pre  bool   `json:"pre,omitempty"`
 }
 
+// PartSlice is one device slice of a partitionable pool. Access says from where its devices can be used:
+// "all" (spec.allNodes), "node:<name>" (spec.nodeName, what node-local drivers publish), "zone:<z>" (spec.nodeSelector on
+// the well-known zone label), "rack:<r>" (spec.nodeSelector on the custom label example.com/rack)
+type PartSlice struct {
+	Access string    `json:"access"`
+	Parts  []PartDev `json:"parts"`
+}
+
+// PartPool is a pool of counter-consuming devices: one slice that declares the shared counter (published with the
+// access of the first device slice, as a driver would) and the device slices
+type PartPool struct {
+	Name   string      `json:"name"`
+	Slots  int64       `json:"slots"`
+	Slices []PartSlice `json:"slices"`
+}
+
+// TPartPool is the partitionable device an instance type is expected to come with (cloud-provider ResourceSlice
+// templates of pool-tp: one template declares the shared counter, one the partitions that consume it); every
+// (NodeClaim, instance type) has its own copy of that budget
+type TPartPool struct {
+	Slots int64     `json:"slots"`
+	Parts []PartDev `json:"parts"`
+}
+
+// SharedDev is a multi-allocatable device; Pre = capacity already consumed by allocations in the cluster
+// (AllocatedDeviceState.ConsumedCapacity)
 type SharedDev struct {
 	Name string `json:"name"`
 	Cap  int64  `json:"cap"`
+	Pre  int64  `json:"pre,omitempty"`
 }
 
 type AClaim struct {
 	Name  string `json:"name"`
-	Class string `json:"class"` // gpu (exclusive in-cluster) | tmpl (template devices of the instance type) | shared (multi-allocatable, consumes Cap) | part (exclusive, consumes shared counters)
+	Class string `json:"class"` // gpu (exclusive in-cluster) | tmpl (template devices of the instance type) | shared (multi-allocatable, consumes Cap) | part (exclusive, consumes shared counters) | tpart (template partition, consumes the template counter of its instance type)
 	Count int64  `json:"count"`
 	Cap   int64  `json:"cap"`
 }
@@ -67,17 +97,25 @@ type AllocOp struct {
 	ITs    []string `json:"its"`  // release
 }
 
+// NCSpec: Node == "" is an in-flight NodeClaim (a superposition of instance types, requirements narrowed by Zone / Rack
+// when set); Node != "" is an existing initialized node of that name (one instance type, its labels as requirements, no
+// template devices) — what ExistingNode.CanAdd hands to the allocator
 type NCSpec struct {
 	Name string   `json:"name"`
 	ITs  []string `json:"its"`
+	Node string   `json:"node,omitempty"`
+	Zone string   `json:"zone,omitempty"`
+	Rack string   `json:"rack,omitempty"`
 }
 
 type AllocIn struct {
 	Excl     []string            `json:"excl"`
 	Shared   []SharedDev         `json:"shared"`
 	Prealloc []string            `json:"prealloc"`
-	Parts    []PartDev           `json:"parts"` // counter-consuming devices of pool-c
+	Parts    []PartDev           `json:"parts"` // counter-consuming devices of pool-c (one cluster-wide slice)
 	Slots    int64               `json:"slots"` // the shared counter of pool-c
+	PPools   []PartPool          `json:"ppools,omitempty"` // further partitionable pools: node-local, zonal, rack-local, split over slices
+	TParts   map[string]TPartPool `json:"tparts,omitempty"` // instance type -> its template partitionable device
 	Tmpl     map[string][]string `json:"tmpl"`  // instance type -> template device names
 	NCs      []NCSpec            `json:"ncs"`
 	Ops      []AllocOp           `json:"ops"`
@@ -88,6 +126,7 @@ type MetaEntry struct {
 	NC       string `json:"nc"`
 	IT       string `json:"it"`
 	Dev      string `json:"dev"`
+	Pool     string `json:"pool"`
 	Driver   string `json:"driver"`
 	Template bool   `json:"template"`
 	Consumed int64  `json:"consumed"` // consumed capacity (dimension mem) reported for a multi-allocatable device, 0 otherwise
@@ -99,7 +138,7 @@ type AllocStep struct {
 	Meta     []MetaEntry      `json:"meta"`     // the whole ResourceClaimAllocationMetadata after the op
 	Tracker  DraSnap          `json:"tracker"`  // the tracker's exclusive-device maps (Allocated left empty)
 	Inflight map[string]int64 `json:"inflight"` // tracker.InflightConsumedCapacity[shared device][mem]
-	Counter  *int64           `json:"counter"`  // tracker.RemainingCounters[pool-c][cs][slots], nil = not tracked
+	Counters map[string]int64 `json:"counters"` // tracker.RemainingCounters[pool][cs][slots] of every partitionable pool it tracks
 }
 
 type AllocOut struct {
@@ -108,15 +147,18 @@ type AllocOut struct {
 }
 
 type allocNC struct {
-	id  string
-	its []string
-	tm  map[string][]string
+	id   string
+	node string // name of the existing node, "" for an in-flight NodeClaim
+	reqs scheduling.Requirements
+	its  []string
+	tm   map[string][]string
+	tp   map[string]TPartPool
 }
 
 func (n *allocNC) ID() dra.NodeClaimID                   { return unique.Make(n.id) }
-func (n *allocNC) NodeName() string                     { return "" }
+func (n *allocNC) NodeName() string                     { return n.node }
 func (n *allocNC) NodePoolID() dra.NodePoolID           { return unique.Make("pool") }
-func (n *allocNC) Requirements() scheduling.Requirements { return scheduling.NewRequirements() }
+func (n *allocNC) Requirements() scheduling.Requirements { return n.reqs }
 func (n *allocNC) InstanceTypes() []dra.InstanceTypeID {
 	out := []dra.InstanceTypeID{}
 	for _, it := range n.its {
@@ -126,19 +168,114 @@ func (n *allocNC) InstanceTypes() []dra.InstanceTypeID {
 }
 func (n *allocNC) ResourceSlices() map[dra.InstanceTypeID][]dra.ResourceSlice {
 	out := map[dra.InstanceTypeID][]dra.ResourceSlice{}
+	if n.node != "" {
+		// an initialized node: its devices are published in the cluster
+		return out
+	}
 	for _, it := range n.its {
-		names := n.tm[it]
-		if len(names) == 0 {
-			continue
+		out[unique.Make(it)] = append(templateSlices(n.tm[it]), templatePartSlices(n.tp[it])...)
+		if len(out[unique.Make(it)]) == 0 {
+			delete(out, unique.Make(it))
 		}
-		devs := []cloudprovider.Device{}
-		for _, d := range names {
-			devs = append(devs, cloudprovider.Device{Name: unique.Make(d)})
-		}
-		out[unique.Make(it)] = []dra.ResourceSlice{dra.NewTemplateSlice(&cloudprovider.ResourceSliceTemplate{
-			Driver: unique.Make(drvTmpl), Pool: cloudprovider.ResourcePool{Name: unique.Make("pool-t")}, Devices: devs})}
 	}
 	return out
+}
+
+func templateSlices(names []string) []dra.ResourceSlice {
+	if len(names) == 0 {
+		return nil
+	}
+	devs := []cloudprovider.Device{}
+	for _, d := range names {
+		devs = append(devs, cloudprovider.Device{Name: unique.Make(d)})
+	}
+	return []dra.ResourceSlice{dra.NewTemplateSlice(&cloudprovider.ResourceSliceTemplate{
+		Driver: unique.Make(drvTmpl), Pool: cloudprovider.ResourcePool{Name: unique.Make("pool-t")}, Devices: devs})}
+}
+
+func templatePartTemplates(tp TPartPool) []*cloudprovider.ResourceSliceTemplate {
+	if len(tp.Parts) == 0 {
+		return nil
+	}
+	devs := []cloudprovider.Device{}
+	for _, d := range tp.Parts {
+		devs = append(devs, cloudprovider.Device{Name: unique.Make(d.Name), ConsumesCounters: []resourcev1.DeviceCounterConsumption{
+			{CounterSet: ctrSet, Counters: map[string]resourcev1.Counter{ctrName: {Value: *resource.NewQuantity(d.W, resource.DecimalSI)}}}}})
+	}
+	pool := cloudprovider.ResourcePool{Name: unique.Make("pool-tp")}
+	return []*cloudprovider.ResourceSliceTemplate{
+		{Driver: unique.Make(drvTPart), Pool: pool, SharedCounters: []resourcev1.CounterSet{{Name: ctrSet, Counters: map[string]resourcev1.Counter{ctrName: {Value: *resource.NewQuantity(tp.Slots, resource.DecimalSI)}}}}},
+		{Driver: unique.Make(drvTPart), Pool: pool, Devices: devs},
+	}
+}
+
+func templatePartSlices(tp TPartPool) []dra.ResourceSlice {
+	var out []dra.ResourceSlice
+	for _, t := range templatePartTemplates(tp) {
+		out = append(out, dra.NewTemplateSlice(t))
+	}
+	return out
+}
+
+const rackLabel = "example.com/rack"
+
+func newAllocNC(n NCSpec, tm map[string][]string, tp map[string]TPartPool) *allocNC {
+	nc := &allocNC{id: n.Name, node: n.Node, its: append([]string{}, n.ITs...), tm: tm, tp: tp}
+	if n.Node != "" {
+		// ExistingNode.requirements: the node's labels plus its hostname
+		labels := map[string]string{corev1.LabelHostname: n.Node}
+		if len(n.ITs) > 0 {
+			labels[corev1.LabelInstanceTypeStable] = n.ITs[0]
+			nc.its = nc.its[:1]
+		}
+		if n.Zone != "" {
+			labels[corev1.LabelTopologyZone] = n.Zone
+		}
+		if n.Rack != "" {
+			labels[rackLabel] = n.Rack
+		}
+		nc.reqs = scheduling.NewLabelRequirements(labels)
+		return nc
+	}
+	nc.reqs = scheduling.NewRequirements()
+	if n.Zone != "" {
+		nc.reqs.Add(scheduling.NewRequirement(corev1.LabelTopologyZone, corev1.NodeSelectorOpIn, n.Zone))
+	}
+	if n.Rack != "" {
+		nc.reqs.Add(scheduling.NewRequirement(rackLabel, corev1.NodeSelectorOpIn, n.Rack))
+	}
+	return nc
+}
+
+// setAccess publishes a slice as cluster-wide, node-local, zonal or rack-local
+func setAccess(spec *resourcev1.ResourceSliceSpec, access string) error {
+	kind, val, _ := strings.Cut(access, ":")
+	sel := func(key string) *corev1.NodeSelector {
+		return &corev1.NodeSelector{NodeSelectorTerms: []corev1.NodeSelectorTerm{{MatchExpressions: []corev1.NodeSelectorRequirement{
+			{Key: key, Operator: corev1.NodeSelectorOpIn, Values: []string{val}}}}}}
+	}
+	switch {
+	case access == "all" || access == "":
+		spec.AllNodes = ptr.To(true)
+	case kind == "node" && val != "":
+		spec.NodeName = ptr.To(val)
+	case kind == "zone" && val != "":
+		spec.NodeSelector = sel(corev1.LabelTopologyZone)
+	case kind == "rack" && val != "":
+		spec.NodeSelector = sel(rackLabel)
+	default:
+		return fmt.Errorf("bad slice access %q", access)
+	}
+	return nil
+}
+
+// partPools: the legacy single pool-c (cluster-wide) followed by the explicit pools
+func (in *AllocIn) partPools() []PartPool {
+	var out []PartPool
+	if len(in.Parts) > 0 {
+		out = append(out, PartPool{Name: "pool-c", Slots: in.Slots, Slices: []PartSlice{{Access: "all", Parts: in.Parts}}})
+	}
+	return append(out, in.PPools...)
 }
 
 func deviceClass(name, driver string) *resourcev1.DeviceClass {
@@ -162,7 +299,7 @@ func implAlloc(raw json.RawMessage) (any, error) {
 	}
 	ctx := context.Background()
 	var objs []client.Object
-	for _, dc := range []*resourcev1.DeviceClass{deviceClass("gpu", drvExcl), deviceClass("tmpl", drvTmpl), deviceClass("shared", drvShared), deviceClass("part", drvPart)} {
+	for _, dc := range []*resourcev1.DeviceClass{deviceClass("gpu", drvExcl), deviceClass("tmpl", drvTmpl), deviceClass("shared", drvShared), deviceClass("part", drvPart), deviceClass("tpart", drvTPart)} {
 		objs = append(objs, dc)
 	}
 	kube := world.NewClient(objs...)
@@ -184,27 +321,71 @@ func implAlloc(raw json.RawMessage) (any, error) {
 		}
 		slices = append(slices, dra.NewAPIServerSlice(s))
 	}
-	if len(in.Parts) > 0 {
-		// a pool of two slices: one declares the shared counter, the other the devices that consume it
-		cs := &resourcev1.ResourceSlice{ObjectMeta: metav1.ObjectMeta{Name: "s-part-counters"}, Spec: resourcev1.ResourceSliceSpec{Driver: drvPart,
-			Pool: resourcev1.ResourcePool{Name: "pool-c", Generation: 1, ResourceSliceCount: 2}, AllNodes: ptr.To(true),
-			SharedCounters: []resourcev1.CounterSet{{Name: ctrSet, Counters: map[string]resourcev1.Counter{ctrName: {Value: *resource.NewQuantity(in.Slots, resource.DecimalSI)}}}}}}
-		ds := &resourcev1.ResourceSlice{ObjectMeta: metav1.ObjectMeta{Name: "s-part-devices"}, Spec: resourcev1.ResourceSliceSpec{Driver: drvPart,
-			Pool: resourcev1.ResourcePool{Name: "pool-c", Generation: 1, ResourceSliceCount: 2}, AllNodes: ptr.To(true)}}
-		for _, d := range in.Parts {
-			ds.Spec.Devices = append(ds.Spec.Devices, resourcev1.Device{Name: d.Name, ConsumesCounters: []resourcev1.DeviceCounterConsumption{
-				{CounterSet: ctrSet, Counters: map[string]resourcev1.Counter{ctrName: {Value: *resource.NewQuantity(d.W, resource.DecimalSI)}}}}})
-		}
-		slices = append(slices, dra.NewAPIServerSlice(cs), dra.NewAPIServerSlice(ds))
-	}
 	pre := sets.New[cloudprovider.DeviceID]()
 	for _, p := range in.Prealloc {
 		pre.Insert(cloudprovider.DeviceID{Driver: unique.Make(drvExcl), Pool: unique.Make("pool-a"), Device: unique.Make(p)})
 	}
-	al := dra.NewAllocator(slices, dra.AllocatedDeviceState{ExclusiveDevices: pre, ConsumedCapacity: map[cloudprovider.DeviceID]map[resourcev1.QualifiedName]resource.Quantity{}}, nil, kube, nil)
+	// device names are global in the protocol (the specification looks a device up by its name)
+	devNames := sets.New[string](in.Excl...)
+	for _, d := range in.Shared {
+		devNames.Insert(d.Name)
+	}
+	for _, tp := range in.TParts {
+		for _, d := range tp.Parts {
+			devNames.Insert(d.Name) // the same template device may be listed for several instance types
+		}
+	}
+	poolNames := sets.New("pool-a", "pool-b", "pool-t", "pool-tp")
+	pools := in.partPools()
+	for _, pp := range pools {
+		if poolNames.Has(pp.Name) {
+			return AllocOut{Err: "duplicate pool name " + pp.Name}, nil
+		}
+		poolNames.Insert(pp.Name)
+		// one slice declares the shared counter, the others the devices that consume it
+		n := int64(1 + len(pp.Slices))
+		cs := &resourcev1.ResourceSlice{ObjectMeta: metav1.ObjectMeta{Name: "s-" + pp.Name + "-counters"}, Spec: resourcev1.ResourceSliceSpec{Driver: drvPart,
+			Pool:           resourcev1.ResourcePool{Name: pp.Name, Generation: 1, ResourceSliceCount: n},
+			SharedCounters: []resourcev1.CounterSet{{Name: ctrSet, Counters: map[string]resourcev1.Counter{ctrName: {Value: *resource.NewQuantity(pp.Slots, resource.DecimalSI)}}}}}}
+		access := "all"
+		if len(pp.Slices) > 0 {
+			access = pp.Slices[0].Access
+		}
+		if err := setAccess(&cs.Spec, access); err != nil {
+			return AllocOut{Err: err.Error()}, nil
+		}
+		slices = append(slices, dra.NewAPIServerSlice(cs))
+		for i, sl := range pp.Slices {
+			ds := &resourcev1.ResourceSlice{ObjectMeta: metav1.ObjectMeta{Name: fmt.Sprintf("s-%s-devices-%d", pp.Name, i)}, Spec: resourcev1.ResourceSliceSpec{Driver: drvPart,
+				Pool: resourcev1.ResourcePool{Name: pp.Name, Generation: 1, ResourceSliceCount: n}}}
+			if err := setAccess(&ds.Spec, sl.Access); err != nil {
+				return AllocOut{Err: err.Error()}, nil
+			}
+			for _, d := range sl.Parts {
+				if devNames.Has(d.Name) {
+					return AllocOut{Err: "duplicate device name " + d.Name}, nil
+				}
+				devNames.Insert(d.Name)
+				ds.Spec.Devices = append(ds.Spec.Devices, resourcev1.Device{Name: d.Name, ConsumesCounters: []resourcev1.DeviceCounterConsumption{
+					{CounterSet: ctrSet, Counters: map[string]resourcev1.Counter{ctrName: {Value: *resource.NewQuantity(d.W, resource.DecimalSI)}}}}})
+				if d.Pre {
+					pre.Insert(cloudprovider.DeviceID{Driver: unique.Make(drvPart), Pool: unique.Make(pp.Name), Device: unique.Make(d.Name)})
+				}
+			}
+			slices = append(slices, dra.NewAPIServerSlice(ds))
+		}
+	}
+	consumed := map[cloudprovider.DeviceID]map[resourcev1.QualifiedName]resource.Quantity{}
+	for _, d := range in.Shared {
+		if d.Pre > 0 {
+			consumed[cloudprovider.DeviceID{Driver: unique.Make(drvShared), Pool: unique.Make("pool-b"), Device: unique.Make(d.Name)}] =
+				map[resourcev1.QualifiedName]resource.Quantity{capDim: *resource.NewQuantity(d.Pre, resource.DecimalSI)}
+		}
+	}
+	al := dra.NewAllocator(slices, dra.AllocatedDeviceState{ExclusiveDevices: pre, ConsumedCapacity: consumed}, nil, kube, nil)
 	ncs := map[string]*allocNC{}
 	for _, n := range in.NCs {
-		ncs[n.Name] = &allocNC{id: n.Name, its: append([]string{}, n.ITs...), tm: in.Tmpl}
+		ncs[n.Name] = newAllocNC(n, in.Tmpl, in.TParts)
 	}
 	out := AllocOut{Steps: []AllocStep{}}
 	snapshot := func(st *AllocStep) {
@@ -212,7 +393,7 @@ func implAlloc(raw json.RawMessage) (any, error) {
 		for cid, meta := range al.ResourceClaimAllocationMetadata() {
 			for it, devs := range meta.Devices {
 				for _, d := range devs {
-					e := MetaEntry{Claim: cid.Value().Name, NC: meta.NodeClaimID.Value(), IT: it.Value(), Dev: d.DeviceID.Device.Value(), Driver: d.DeviceID.Driver.Value(), Template: d.DeviceID.Template}
+					e := MetaEntry{Claim: cid.Value().Name, NC: meta.NodeClaimID.Value(), IT: it.Value(), Dev: d.DeviceID.Device.Value(), Pool: d.DeviceID.Pool.Value(), Driver: d.DeviceID.Driver.Value(), Template: d.DeviceID.Template}
 					if q, ok := d.ConsumedCapacity[capDim]; ok {
 						e.Consumed = q.Value()
 					}
@@ -232,9 +413,12 @@ func implAlloc(raw json.RawMessage) (any, error) {
 				st.Inflight[id.Device.Value()] = q.Value()
 			}
 		}
-		if sets_, ok := at.RemainingCounters[dra.PoolKey{Driver: unique.Make(drvPart), Pool: unique.Make("pool-c")}]; ok {
-			if c, ok := sets_[ctrSet][ctrName]; ok {
-				st.Counter = ptr.To(c.Value.Value())
+		st.Counters = map[string]int64{}
+		for _, pp := range pools {
+			if sets_, ok := at.RemainingCounters[dra.PoolKey{Driver: unique.Make(drvPart), Pool: unique.Make(pp.Name)}]; ok {
+				if c, ok := sets_[ctrSet][ctrName]; ok {
+					st.Counters[pp.Name] = c.Value.Value()
+				}
 			}
 		}
 	}
@@ -258,6 +442,17 @@ func implAlloc(raw json.RawMessage) (any, error) {
 			if err != nil {
 				st.Result = "err"
 				break
+			}
+			if nc.node == "" {
+				// NodeClaim.tryVolumeAlternative: the topology the allocated devices contribute must fit the claim and narrows it
+				// (an existing node's requirements are its labels and stay as they are)
+				if nc.reqs.Compatible(res.Requirements, scheduling.AllowUndefinedWellKnownLabels) != nil {
+					st.Result = "err"
+					break
+				}
+				merged := scheduling.NewRequirements(nc.reqs.Values()...)
+				merged.Add(res.Requirements.Values()...)
+				nc.reqs = merged
 			}
 			st.Result = "ok"
 			okITs := sets.New[string]()
@@ -319,6 +514,21 @@ func implAlloc(raw json.RawMessage) (any, error) {
 	return out, nil
 }
 
+// slotsFor picks the shared counter of a pool whose preallocated partitions already consume used units: often exactly
+// exhausted or one partition short of it (the boundary), otherwise anything from used upwards — never less than used
+// (the cluster state is consistent)
+func slotsFor(r *rand.Rand, used int64, parts []PartDev) int64 {
+	switch r.IntN(4) {
+	case 0:
+		if used > 0 {
+			return used
+		}
+	case 1:
+		return used + pick(r, parts).W - int64(r.IntN(2))
+	}
+	return max(used, int64(2+r.IntN(5))) + int64(r.IntN(2))
+}
+
 func genAlloc(r *rand.Rand, t core.Tier) any {
 	in := AllocIn{Excl: []string{}, Shared: []SharedDev{}, Prealloc: []string{}, Parts: []PartDev{}, Tmpl: map[string][]string{}, NCs: []NCSpec{}, Ops: []AllocOp{}}
 	for i := 0; i < 1+r.IntN(5); i++ {
@@ -328,13 +538,72 @@ func genAlloc(r *rand.Rand, t core.Tier) any {
 		}
 	}
 	for i := 0; i < r.IntN(3); i++ {
-		in.Shared = append(in.Shared, SharedDev{Name: fmt.Sprintf("mig-%d", i), Cap: int64(2 + r.IntN(7))})
+		d := SharedDev{Name: fmt.Sprintf("mig-%d", i), Cap: int64(2 + r.IntN(7))}
+		if r.IntN(3) == 0 {
+			// part of the capacity (sometimes all of it) is consumed by allocations in the cluster
+			d.Pre = int64(1 + r.IntN(int(d.Cap)))
+		}
+		in.Shared = append(in.Shared, d)
+	}
+	partPre := func(parts []PartDev) int64 {
+		var used int64
+		for _, d := range parts {
+			if d.Pre {
+				used += d.W
+			}
+		}
+		return used
 	}
 	if r.IntN(3) == 0 {
 		for i := 0; i < 2+r.IntN(3); i++ {
-			in.Parts = append(in.Parts, PartDev{Name: fmt.Sprintf("part-%d", i), W: int64(1 + r.IntN(3))})
+			in.Parts = append(in.Parts, PartDev{Name: fmt.Sprintf("part-%d", i), W: int64(1 + r.IntN(3)), Pre: r.IntN(4) == 0})
 		}
-		in.Slots = int64(2 + r.IntN(5))
+		in.Slots = slotsFor(r, partPre(in.Parts), in.Parts)
+	}
+	// further partitionable pools, published the way real drivers do: node-local (spec.nodeName), zonal or rack-local
+	// (node selectors), cluster-wide, or split over two zonal slices that draw on one counter
+	nodes := []string{}      // existing nodes that own a node-local pool
+	nodeZone := map[string]string{}
+	nodeRack := map[string]string{}
+	racks := []string{"r1", "r2"}
+	if r.IntN(2) == 0 {
+		for i := 0; i < 1+r.IntN(2); i++ {
+			pp := PartPool{Name: fmt.Sprintf("pool-p%d", i)}
+			mk := func(n int, off int) []PartDev {
+				ds := []PartDev{}
+				for j := 0; j < n; j++ {
+					ds = append(ds, PartDev{Name: fmt.Sprintf("p%d-%d", i, off+j), W: int64(1 + r.IntN(3)), Pre: r.IntN(3) == 0})
+				}
+				return ds
+			}
+			switch x := r.IntN(10); {
+			case x < 5:
+				node := fmt.Sprintf("node-%d", i)
+				nodes = append(nodes, node)
+				nodeZone[node] = pick(r, c17Zones[:2])
+				if r.IntN(2) == 0 {
+					nodeRack[node] = pick(r, racks)
+				}
+				pp.Slices = []PartSlice{{Access: "node:" + node, Parts: mk(2+r.IntN(3), 0)}}
+				if r.IntN(4) == 0 {
+					pp.Slices = append(pp.Slices, PartSlice{Access: "node:" + node, Parts: mk(1+r.IntN(2), 10)})
+				}
+			case x < 6:
+				pp.Slices = []PartSlice{{Access: "all", Parts: mk(2+r.IntN(3), 0)}}
+			case x < 7:
+				pp.Slices = []PartSlice{{Access: "zone:" + pick(r, c17Zones[:2]), Parts: mk(2+r.IntN(3), 0)}}
+			case x < 9:
+				pp.Slices = []PartSlice{{Access: "rack:" + pick(r, racks), Parts: mk(2+r.IntN(3), 0)}}
+			default:
+				pp.Slices = []PartSlice{{Access: "zone:z1", Parts: mk(1+r.IntN(2), 0)}, {Access: "zone:z2", Parts: mk(1+r.IntN(2), 10)}}
+			}
+			var all []PartDev
+			for _, sl := range pp.Slices {
+				all = append(all, sl.Parts...)
+			}
+			pp.Slots = slotsFor(r, partPre(all), all)
+			in.PPools = append(in.PPools, pp)
+		}
 	}
 	its := []string{"it-x", "it-y", "it-z"}[:1+r.IntN(3)]
 	for _, it := range its {
@@ -342,6 +611,20 @@ func genAlloc(r *rand.Rand, t core.Tier) any {
 			for j := 0; j < 1+r.IntN(2); j++ {
 				in.Tmpl[it] = append(in.Tmpl[it], fmt.Sprintf("tdev-%d", j))
 			}
+		}
+	}
+	if r.IntN(3) == 0 {
+		// instance types that come with a partitionable device of their own (template partitions, template counter)
+		in.TParts = map[string]TPartPool{}
+		for _, it := range its {
+			if r.IntN(3) == 0 {
+				continue
+			}
+			tp := TPartPool{Slots: int64(2 + r.IntN(4))}
+			for j := 0; j < 2+r.IntN(2); j++ {
+				tp.Parts = append(tp.Parts, PartDev{Name: fmt.Sprintf("tp-%d", j), W: int64(1 + r.IntN(3))})
+			}
+			in.TParts[it] = tp
 		}
 	}
 	ncNames := []string{"nc-a", "nc-b", "nc-c"}[:1+r.IntN(3)]
@@ -353,7 +636,33 @@ func genAlloc(r *rand.Rand, t core.Tier) any {
 			sel = append(sel, its[ix])
 		}
 		sort.Strings(sel)
-		in.NCs = append(in.NCs, NCSpec{Name: n, ITs: sel})
+		nc := NCSpec{Name: n, ITs: sel}
+		if len(in.PPools) > 0 {
+			// in-flight claims already narrowed to a zone / carrying the rack label of their NodePool
+			if r.IntN(3) == 0 {
+				nc.Zone = pick(r, c17Zones[:2])
+			}
+			if r.IntN(2) == 0 {
+				nc.Rack = pick(r, racks)
+			}
+		}
+		in.NCs = append(in.NCs, nc)
+	}
+	// the existing nodes: those that own a node-local pool, sometimes one more that owns nothing
+	if len(in.PPools) > 0 && r.IntN(4) == 0 {
+		nodes = append(nodes, "node-9")
+		nodeZone["node-9"] = pick(r, c17Zones[:2])
+		nodeRack["node-9"] = pick(r, racks)
+	}
+	existing := []string{}
+	for _, node := range nodes {
+		if r.IntN(8) == 0 {
+			continue // the owner of the pool is not a scheduling target in this pass
+		}
+		n := "en-" + node
+		ncNames = append(ncNames, n)
+		existing = append(existing, n)
+		in.NCs = append(in.NCs, NCSpec{Name: n, ITs: []string{pick(r, its)}, Node: node, Zone: nodeZone[node], Rack: nodeRack[node]})
 	}
 	maxOps := 10
 	if t == core.Thorough {
@@ -362,9 +671,13 @@ func genAlloc(r *rand.Rand, t core.Tier) any {
 	nOps := 1 + r.IntN(maxOps)
 	claimSeq := 0
 	var issued []AClaim
+	hasParts := len(in.Parts) > 0 || len(in.PPools) > 0
 	for i := 0; i < nOps; i++ {
 		nc := pick(r, ncNames)
-		if r.IntN(100) < 75 {
+		if len(existing) > 0 && r.IntN(3) == 0 {
+			nc = pick(r, existing) // favour the existing nodes
+		}
+		if r.IntN(100) < 75 || strings.HasPrefix(nc, "en-") { // the scheduler never prunes the instance type of an existing node
 			op := AllocOp{Op: "allocate", NC: nc}
 			for k := 0; k < 1+r.IntN(2); k++ {
 				if len(issued) > 0 && r.IntN(8) == 0 {
@@ -382,8 +695,16 @@ func genAlloc(r *rand.Rand, t core.Tier) any {
 				c := AClaim{Name: fmt.Sprintf("rc-%d", claimSeq), Count: 1}
 				claimSeq++
 				switch x := r.IntN(10); {
-				case len(in.Parts) > 0 && x < 4:
+				case len(in.TParts) > 0 && r.IntN(3) == 0:
+					c.Class = "tpart"
+					if r.IntN(6) == 0 {
+						c.Count = 2
+					}
+				case hasParts && (x < 4 || (len(in.PPools) > 0 && x < 6)):
 					c.Class = "part"
+					if r.IntN(6) == 0 {
+						c.Count = 2
+					}
 				case x < 6 || (len(in.Shared) == 0 && len(in.Tmpl) == 0):
 					c.Class = "gpu"
 					c.Count = int64(1 + r.IntN(2))
@@ -423,12 +744,22 @@ func genAlloc(r *rand.Rand, t core.Tier) any {
 func opAlloc() *core.Op {
 	return &core.Op{
 		Name: "c17.alloc",
-		Doc:  "the real dynamicresources.Allocator on the fake client (DeviceClasses with CEL selectors): in-cluster ResourceSlices with 1..5 exclusive devices (some already allocated in the cluster) and 0..2 multi-allocatable devices with consumable capacity, per-instance-type template devices, 1..3 NodeClaims superposed over 1..3 instance types; sequences of Allocate → Allocation.Commit → ReleaseInstanceType(pruned types) exactly as NodeClaim.Add drives them, plus later releases, with fresh and re-used ResourceClaims; observed after every op: ResourceClaimAllocationMetadata (= Results.DRAClaimAllocationMetadata) and the tracker's maps (hook VerifTracker); the devices the allocator chose are replayed through the Lean tracker model (they must all be free by IsAllocated) and the metadata is judged by the exclusivity / capacity specification",
+		Doc:  "the real dynamicresources.Allocator on the fake client (DeviceClasses with CEL selectors): in-cluster ResourceSlices with 1..5 exclusive devices (some already allocated in the cluster), 0..2 multi-allocatable devices with consumable capacity (part of it, up to all, already consumed in the cluster), 0..3 pools of counter-consuming partitions published cluster-wide, node-local (spec.nodeName), zonal / rack-local (node selectors on a well-known and on a custom label) or split over two zonal slices, some partitions already allocated in the cluster (counter budgets at and around exhaustion); per-instance-type template devices; 1..3 in-flight NodeClaims superposed over 1..3 instance types (some narrowed to a zone / rack) plus the existing initialized nodes that own the node-local pools; sequences of Allocate → Allocation.Commit → ReleaseInstanceType(pruned types) exactly as NodeClaim.Add drives them, plus later releases, with fresh and re-used ResourceClaims; observed after every op: ResourceClaimAllocationMetadata (= Results.DRAClaimAllocationMetadata) and the tracker's maps (hook VerifTracker); the devices the allocator chose are replayed through the Lean tracker model (they must all be free by IsAllocated) and the metadata is judged by the exclusivity / capacity specification",
 		N:    func(t core.Tier) int { return map[core.Tier]int{core.Quick: 3000, core.Thorough: 10000}[t] },
 		Gen:  genAlloc,
 		Impl: implAlloc,
-		Rule: "non-trivial = at some point two ResourceClaims of different NodeClaims were allocated, or an allocation failed for lack of free devices / capacity",
+		Rule: "non-trivial = at some point two ResourceClaims of different NodeClaims were allocated, or an allocation failed for lack of free devices / capacity / counter budget, or a partition was allocated from a pool some of whose partitions are already allocated in the cluster",
 		Nontrivial: func(raw json.RawMessage, impl any) bool {
+			var in AllocIn
+			json.Unmarshal(raw, &in)
+			prePools := map[string]bool{}
+			for _, pp := range in.partPools() {
+				for _, sl := range pp.Slices {
+					for _, d := range sl.Parts {
+						prePools[pp.Name] = prePools[pp.Name] || d.Pre
+					}
+				}
+			}
 			m, _ := impl.(map[string]any)
 			steps, _ := m["steps"].([]any)
 			for _, s := range steps {
@@ -441,6 +772,9 @@ func opAlloc() *core.Op {
 				for _, e := range meta {
 					em, _ := e.(map[string]any)
 					ncs[fmt.Sprint(em["nc"])] = true
+					if prePools[fmt.Sprint(em["pool"])] {
+						return true
+					}
 				}
 				if len(ncs) > 1 {
 					return true
@@ -461,19 +795,98 @@ func opAlloc() *core.Op {
 					l = append(l, k)
 				}
 			}
+			if e, _ := m["err"].(string); e != "" {
+				add("harness-rejected-input")
+			}
+			// the population
+			poolKind := map[string]string{}  // pool -> access kind(s) of its device slices
+			prePool := map[string]bool{}     // pool has partitions that are already allocated in the cluster
+			fullPool := map[string]bool{}    // … and they exhaust the shared counter
+			for _, pp := range in.partPools() {
+				kinds := []string{}
+				var used int64
+				for _, sl := range pp.Slices {
+					k, _, _ := strings.Cut(sl.Access, ":")
+					if k == "" {
+						k = "all"
+					}
+					if len(kinds) == 0 || kinds[len(kinds)-1] != k {
+						kinds = append(kinds, k)
+					}
+					for _, d := range sl.Parts {
+						if d.Pre {
+							used += d.W
+						}
+					}
+				}
+				kind := strings.Join(kinds, "+")
+				if len(pp.Slices) > 1 {
+					kind += "/split"
+				}
+				poolKind[pp.Name] = kind
+				add("counter-pool:" + kind)
+				if used > 0 {
+					prePool[pp.Name] = true
+					add("counter-pool-with-preallocated-partitions:" + kind)
+					if used >= pp.Slots {
+						fullPool[pp.Name] = true
+						add("counter-exhausted-by-preallocated-partitions:" + kind)
+					}
+				}
+			}
+			for _, d := range in.Shared {
+				if d.Pre > 0 {
+					add("shared-device-with-preallocated-capacity")
+					if d.Pre >= d.Cap {
+						add("shared-device-exhausted-by-preallocated-capacity")
+					}
+				}
+			}
+			existing := map[string]bool{}
+			for _, n := range in.NCs {
+				if n.Node != "" {
+					existing[n.Name] = true
+					add("existing-node")
+				} else if n.Zone != "" || n.Rack != "" {
+					add("in-flight-claim-with-zone-or-rack")
+				}
+			}
 			for i, s := range steps {
+				if i >= len(in.Ops) {
+					break
+				}
 				sm, _ := s.(map[string]any)
-				add(in.Ops[i].Op + ":" + fmt.Sprint(sm["result"]))
+				who := ""
+				if existing[in.Ops[i].NC] {
+					who = "@existing-node"
+				}
+				add(in.Ops[i].Op + who + ":" + fmt.Sprint(sm["result"]))
+				if fmt.Sprint(sm["result"]) == "err" {
+					for _, c := range in.Ops[i].Claims {
+						if c.Class == "part" {
+							add("partition-claim-refused" + who)
+						}
+						if c.Class == "tpart" {
+							add("template-partition-claim-refused" + who)
+						}
+					}
+				}
 				meta, _ := sm["meta"].([]any)
 				for _, e := range meta {
 					em, _ := e.(map[string]any)
 					switch {
+					case fmt.Sprint(em["driver"]) == drvTPart:
+						add("template-counter-device-allocated")
 					case em["template"] == true:
 						add("template-device-allocated")
-					case strings.HasPrefix(fmt.Sprint(em["dev"]), "mig-"):
+					case fmt.Sprint(em["driver"]) == drvShared:
 						add("shared-device-allocated")
-					case strings.HasPrefix(fmt.Sprint(em["dev"]), "part-"):
-						add("counter-device-allocated")
+					case fmt.Sprint(em["driver"]) == drvPart:
+						pool := fmt.Sprint(em["pool"])
+						add("counter-device-allocated:" + poolKind[pool])
+						if prePool[pool] {
+							add("counter-device-allocated-beside-preallocated:" + poolKind[pool])
+						}
 					default:
 						add("exclusive-device-allocated")
 					}
@@ -489,6 +902,37 @@ func opAlloc() *core.Op {
 			for _, c := range core.ShrinkList(in.Ops) {
 				d := in
 				d.Ops = c
+				out = append(out, d)
+			}
+			// the population: pools, template partitions, NodeClaims no remaining op refers to
+			for _, c := range core.ShrinkList(in.PPools) {
+				d := in
+				d.PPools = c
+				out = append(out, d)
+			}
+			if len(in.TParts) > 0 {
+				d := in
+				d.TParts = nil
+				out = append(out, d)
+			}
+			if len(in.Parts) > 0 {
+				d := in
+				d.Parts, d.Slots = []PartDev{}, 0
+				out = append(out, d)
+			}
+			used := map[string]bool{}
+			for _, op := range in.Ops {
+				used[op.NC] = true
+			}
+			var keep []NCSpec
+			for _, n := range in.NCs {
+				if used[n.Name] {
+					keep = append(keep, n)
+				}
+			}
+			if len(keep) < len(in.NCs) {
+				d := in
+				d.NCs = keep
 				out = append(out, d)
 			}
 			return out
